@@ -128,6 +128,7 @@ var checks = map[string][]HarnessSpec{
 		{Name: "HarnessC05Int64", Pkg: "leaf", Solver: "cvc5-int", TimeoutMS: 60000},
 		{Name: "HarnessC05Triple", Pkg: "leaf", Quick: map[string]int{"SI": 1, "PI": 1, "OT": 1}, Thorough: map[string]int{"SI": 2, "PI": 2, "OT": 2}},
 		{Name: "HarnessC05Graph", Pkg: "store", Quick: map[string]int{"K": 2}, Thorough: map[string]int{"K": 3}},
+		{Name: "HarnessC05Graph", Pkg: "store", Quick: map[string]int{"K": 1, "WIDE": 1}, Thorough: map[string]int{"K": 2, "WIDE": 1}, Note: "component bytes over the printable 7-bit range"},
 	},
 	"C16": {
 		{Name: "HarnessC16Structure", Pkg: "leaf", Quick: map[string]int{"N": 3, "ASCII": 1}, Thorough: map[string]int{"N": 4, "ASCII": 1}},
